@@ -819,6 +819,10 @@ func buildCases(r *lib.Run) []hcase {
 			if pre.name == "x-2slash" && strings.HasPrefix(tg.tmpl, ".uploads") {
 				continue // inb//.uploads/.. is a legitimate key below inb/
 			}
+			// quick tier: single '/' and '%2F' prefixes are already among the fixed patterns
+			if r.Quick() && (pre.name == "slash" || pre.name == "enc-slash" || tg.name == "uploads-dir") {
+				continue
+			}
 			name := "empty-" + pre.name + "+" + tg.name
 			for _, rt := range keyRoutes {
 				cs = append(cs, hcase{Route: rt, Vector: "key", Pattern: name, Tmpl: pre.tmpl + tg.tmpl})
